@@ -216,21 +216,68 @@ pub struct COut {
     pub engine_error: bool,
 }
 
-/// one leg-C case: the WHERE expression and a chunk (rows + statistics)
+/// statement shapes of leg C.  `parts` are the filter expressions used.
+///   0  SELECT * FROM metrics WHERE p0                                  (expected: convert p0)
+///   1  UNION ALL of one filtered select per part                         (expected: nothing extracted)
+///   2  (select WHERE p0) l LEFT JOIN (select WHERE p1) r                 (expected: nothing)
+///   3  SELECT * FROM (select WHERE p0) d [WHERE p1]                      (expected: convert p1 / nothing)
+///   4  SELECT DISTINCT ... WHERE p0                                      (expected: nothing - the Distinct node stops the traversal)
+///   5  SELECT ... WHERE p0 ORDER BY host LIMIT 5                         (expected: convert p0)
+///   6  SELECT * FROM (SELECT -value_i64 AS value_i64, ... ) WHERE p0     (NOT judged: the unchanged code
+///      pushes the outer filter to the raw column; recorded only)
+pub const SEL: &str = "host, service, metric_name, value_i64, value_f64, value_u64";
+
+/// one leg-C case: the statement and a chunk (rows + statistics)
 #[derive(Clone)]
 pub struct CCase {
-    pub e: E,
+    pub shape: u8,
+    pub parts: Vec<E>,
     pub rows: Vec<Row>,
     pub stats: Vec<Stat>,
 }
 
 impl CCase {
+    pub fn sql(&self) -> String {
+        let p = |i: usize| to_sql(&self.parts[i]);
+        match self.shape {
+            0 => format!("SELECT * FROM metrics WHERE {}", p(0)),
+            1 => (0..self.parts.len()).map(|i| format!("SELECT {} FROM metrics WHERE {}", SEL, p(i))).collect::<Vec<_>>().join(" UNION ALL "),
+            2 => format!(
+                "SELECT l.host, l.value_i64, r.value_f64 FROM (SELECT host, value_i64 FROM metrics WHERE {}) l LEFT JOIN (SELECT host AS h2, value_f64 FROM metrics WHERE {}) r ON l.host = r.h2",
+                p(0), p(1)
+            ),
+            3 => {
+                if self.parts.len() > 1 {
+                    format!("SELECT * FROM (SELECT {} FROM metrics WHERE {}) d WHERE {}", SEL, p(0), p(1))
+                } else {
+                    format!("SELECT * FROM (SELECT {} FROM metrics WHERE {}) d", SEL, p(0))
+                }
+            }
+            4 => format!("SELECT DISTINCT {} FROM metrics WHERE {}", SEL, p(0)),
+            5 => format!("SELECT {} FROM metrics WHERE {} ORDER BY host LIMIT 5", SEL, p(0)),
+            _ => format!("SELECT * FROM (SELECT -value_i64 AS value_i64, -value_f64 AS value_f64, host FROM metrics) WHERE {}", p(0)),
+        }
+    }
+    /// the filter whose conversion the unchanged plan traversal returns (None = nothing)
+    pub fn expected_part(&self) -> Option<&E> {
+        match self.shape {
+            0 | 5 | 6 => Some(&self.parts[0]),
+            3 => self.parts.get(1),
+            _ => None,
+        }
+    }
     pub fn json(&self) -> Value {
-        json!({"leg": "C", "expr": show_expr(&self.e), "sql": to_sql(&self.e), "rows": show_rows(&self.rows), "stats": show_stats(&self.stats)})
+        json!({"leg": "C", "shape": self.shape, "parts": self.parts.iter().map(show_expr).collect::<Vec<_>>(), "sql": self.sql(),
+               "rows": show_rows(&self.rows), "stats": show_stats(&self.stats)})
     }
     pub fn parse(v: &Value) -> CCase {
+        let parts: Vec<E> = match v.get("parts").and_then(|p| p.as_array()) {
+            Some(a) => a.iter().map(|t| parse_expr(&mut Toks::new(t.as_str().unwrap()))).collect(),
+            None => vec![parse_expr(&mut Toks::new(v["expr"].as_str().expect("expr")))],
+        };
         CCase {
-            e: parse_expr(&mut Toks::new(v["expr"].as_str().expect("expr"))),
+            shape: v.get("shape").and_then(|s| s.as_u64()).unwrap_or(0) as u8,
+            parts,
             rows: v["rows"].as_str().map(|t| parse_rows(&mut Toks::new(t))).unwrap_or_default(),
             stats: v["stats"].as_str().map(|t| parse_stats(&mut Toks::new(t))).unwrap_or_default(),
         }
@@ -238,8 +285,7 @@ impl CCase {
 }
 
 pub fn check_c(rt: &tokio::runtime::Runtime, eng: &Engine, c: &CCase, model: &mut Model) -> COut {
-    let e = &c.e;
-    let sql = format!("SELECT * FROM metrics WHERE {}", to_sql(e));
+    let sql = c.sql();
     let r = rt.block_on(eng.engine.extract_column_predicates(&sql));
     let mut pruned = false;
     let mut preds: Vec<Pred> = Vec::new();
@@ -254,23 +300,38 @@ pub fn check_c(rt: &tokio::runtime::Runtime, eng: &Engine, c: &CCase, model: &mu
         }
         Err(err) => (format!("ERR {}", err).chars().take(200).collect(), true),
     };
-    let answer = model.ask(&model_line(e));
-    let model_out = answer.split(" ; ").next().unwrap_or("").to_string();
+    let model_out = match c.expected_part() {
+        Some(e) => model.ask(&model_line(e)).split(" ; ").next().unwrap_or("").to_string(),
+        None => {
+            if model.is_null() { "NO-MODEL".to_string() } else { "NONE".to_string() }
+        }
+    };
     let differs = !model.is_null() && !plan_error && impl_out != model_out;
-    // oracle: a pruned chunk holds no row that the engine returns for the WHERE clause
+    // oracle: a pruned chunk contributes no row to DataFusion's answer to the statement
     let mut bad_rows = Vec::new();
     let mut engine_error = false;
-    if pruned && !c.rows.is_empty() {
-        match crate::df::eval_where(rt, &to_sql(e), &c.rows) {
-            Ok(ids) => {
-                for i in ids {
-                    if i < c.rows.len() && eval::in_stats(&c.rows[i], &c.stats) {
-                        let known = preds.iter().any(|p| eval::known_mixed(p, &c.stats, &c.rows[i]));
-                        bad_rows.push((i, known));
+    if pruned && !c.rows.is_empty() && c.rows.iter().all(|r| eval::in_stats(r, &c.stats)) {
+        if c.shape == 0 {
+            match crate::df::eval_where(rt, &to_sql(&c.parts[0]), &c.rows) {
+                Ok(ids) => {
+                    for i in ids {
+                        if i < c.rows.len() {
+                            let known = preds.iter().any(|p| eval::known_mixed(p, &c.stats, &c.rows[i]));
+                            bad_rows.push((i, known));
+                        }
                     }
                 }
+                Err(_) => engine_error = true,
             }
-            Err(_) => engine_error = true,
+        } else {
+            match crate::df::eval_stmt(rt, &sql, &c.rows) {
+                Ok(n) if n > 0 => {
+                    let known = preds.iter().any(|p| c.rows.iter().any(|r| eval::known_mixed(p, &c.stats, r)));
+                    bad_rows.push((0, known));
+                }
+                Ok(_) => {}
+                Err(_) => engine_error = true,
+            }
         }
     }
     COut { impl_out, model_out, differs, plan_error, pruned, bad_rows, engine_error }
@@ -293,13 +354,26 @@ const NONCONV: [&str; 9] = [
 ];
 const ROW_I64: [i64; 7] = [0, 5, -5, 10, 20, 9007199254740993, 3];
 const ROW_F64: [f64; 7] = [1.5, 2.0, -2.5, 0.5, 100.0, 9007199254740992.0, 1e300];
-const ROW_U64: [u64; 5] = [0, 5, 10, u64::MAX, 7];
+const ROW_U64: [u64; 8] = [0, 5, 10, u64::MAX, 7, 1 << 63, (1 << 63) - 1, 10_000_000_000_000_000_000];
+/// integer literals around and above i64::MAX (the SQL planner makes the latter UInt64 literals)
+const BIG_INTS: [&str; 6] = [
+    "9223372036854775806", "9223372036854775807", "9223372036854775808", "10000000000000000000", "18446744073709551614", "18446744073709551615",
+];
+fn big_int_lit(rng: &mut Rng) -> Sc {
+    let t = *rng.pick(&BIG_INTS);
+    match t.parse::<i64>() {
+        Ok(i) => Sc::I64(i),
+        Err(_) => Sc::Other(t.to_string()),
+    }
+}
 const ROW_TS: [i64; 4] = [0, 5, 10, 1_000_000_000];
 
 /// a convertible comparison whose literal comes from the pools the rows use
 fn gen_conv_atom(rng: &mut Rng) -> E {
     let o = *rng.pick(&[Bop::Eq, Bop::Lt, Bop::Le, Bop::Gt, Bop::Ge, Bop::Eq]);
-    let (c, l) = match rng.below(4) {
+    let (c, l) = match rng.below(6) {
+        4 => (*rng.pick(&[4usize, 4, 2]), big_int_lit(rng)),
+        5 => (4usize, Sc::I64(*rng.pick(&[0i64, 5, 7, 10, 11]))),
         0 => (2usize, Sc::I64(*rng.pick(&ROW_I64) + rng.range_i64(-1, 1))),
         1 => (3, Sc::F64((*rng.pick(&ROW_F64) + rng.range_i64(-1, 1) as f64).to_bits())),
         2 => (*rng.pick(&[5usize, 6, 7]), Sc::Utf8(rng.pick(&STR_LITS).to_string())),
@@ -490,12 +564,27 @@ fn corpus() -> Vec<E> {
     .collect()
 }
 
+pub fn gen_stmt(rng: &mut Rng, report: &mut Report) -> (u8, Vec<E>) {
+    let atom = |rng: &mut Rng, report: &mut Report| -> E {
+        if rng.chance(1, 4) { gen_expr(rng, 1, report) } else { gen_conv_atom(rng) }
+    };
+    let shape = *rng.pick(&[1u8, 1, 1, 2, 2, 3, 3, 4, 5, 6]);
+    let n = match shape {
+        1 => rng.range_usize(2, 3),
+        2 => 2,
+        3 => rng.range_usize(1, 2),
+        _ => 1,
+    };
+    let parts = (0..n).map(|_| atom(rng, report)).collect();
+    report.bump(&format!("C.shape.{}", shape));
+    (shape, parts)
+}
+
 pub fn run_c(rt: &tokio::runtime::Runtime, rng: &mut Rng, n: usize, model: &mut Model, report: &mut Report) {
     let eng = Engine::new(rt);
     let mut cases: Vec<CCase> = Vec::new();
-    for (i, e) in corpus().into_iter().enumerate() {
-        // a fixed chunk for the corpus: one row that satisfies the unconvertible operands
-        let rows: Vec<Row> = vec![vec![
+    let fixed_rows = |i: usize| -> Vec<Row> {
+        vec![vec![
             (0, V::Int(10)),
             (2, V::Int(5 + i as i128 % 2)),
             (3, V::Float(2.0f64.to_bits())),
@@ -503,27 +592,68 @@ pub fn run_c(rt: &tokio::runtime::Runtime, rng: &mut Rng, n: usize, model: &mut 
             (5, V::Str("a".into())),
             (6, V::Str("a".into())),
             (7, V::Str("cpu".into())),
-        ]];
-        let stats = vec![
+        ]]
+    };
+    let fixed_stats = || {
+        vec![
             Stat { col: 7, min: Value::String("cpu".into()), max: Value::String("cpu".into()), has_nulls: false },
             Stat { col: 2, min: Value::from(5), max: Value::from(6), has_nulls: false },
-        ];
-        cases.push(CCase { e, rows, stats });
+            Stat { col: 4, min: Value::from(7), max: Value::from(7), has_nulls: false },
+        ]
+    };
+    for (i, e) in corpus().into_iter().enumerate() {
+        // a fixed chunk for the corpus: one row that satisfies the unconvertible operands
+        cases.push(CCase { shape: 0, parts: vec![e], rows: fixed_rows(i), stats: fixed_stats() });
+    }
+    // multi-branch statements and literals above i64::MAX on the fixed chunk
+    let px = |t: &str| parse_expr(&mut Toks::new(t));
+    let cpu = "bin eq col 7 lit u:637075";
+    let mem = "bin eq col 7 lit u:6d656d6f7279";
+    for (shape, parts) in [
+        (1u8, vec![px(cpu), px(mem)]),
+        (1, vec![px(mem), px(cpu), px("bin gt col 2 lit i64:100")]),
+        (2, vec![px(cpu), px(mem)]),
+        (3, vec![px(cpu)]),
+        (3, vec![px(cpu), px("bin gt col 2 lit i64:1")]),
+        (4, vec![px(cpu)]),
+        (5, vec![px(cpu)]),
+        (0, vec![px("bin lt col 4 lit other:3130303030303030303030303030303030303030")]),
+        (0, vec![px("bin le col 4 lit other:3138343436373434303733373039353531363135")]),
+        (0, vec![px("bin lt col 2 lit other:39323233333732303336383534373735383038")]),
+        (0, vec![px("bin le col 4 lit i64:9223372036854775807")]),
+    ] {
+        cases.push(CCase { shape, parts, rows: fixed_rows(0), stats: fixed_stats() });
     }
     for _ in 0..n {
         let mut r = rng.fork();
-        let d = *r.pick(&[0u32, 1, 1, 1, 2, 3]);
-        let e = gen_expr(&mut r, d, report);
+        let (shape, parts) = if r.chance(3, 10) {
+            gen_stmt(&mut r, report)
+        } else {
+            let d = *r.pick(&[0u32, 1, 1, 1, 2, 3]);
+            (0u8, vec![gen_expr(&mut r, d, report)])
+        };
         let (rows, stats) = gen_chunk(&mut r);
-        cases.push(CCase { e, rows, stats });
+        cases.push(CCase { shape, parts, rows, stats });
     }
     for c in cases {
         let o = check_c(rt, &eng, &c, model);
         report.impl_runs += 1;
-        let text = show_expr(&c.e);
+        let text = format!("{} {}", c.shape, c.parts.iter().map(show_expr).collect::<Vec<_>>().join(" ; "));
         if o.plan_error {
             report.bump("C.plan_error_skipped");
             report.case(None);
+            continue;
+        }
+        if c.shape == 6 {
+            // not judged: the unchanged code pushes a filter that stands above a renaming
+            // projection down to the raw column's statistics (noted in level_note)
+            report.case(None);
+            if !o.bad_rows.is_empty() {
+                report.bump("C.unjudged.filter_above_renaming_projection.pruned_although_rows_answer");
+                if !report.notes.iter().any(|n| n.starts_with("unjudged shape")) {
+                    report.notes.push(format!("unjudged shape (filter above a renaming projection), observed on this tree: `{}` extracts {} and prunes a chunk whose rows appear in DataFusion's answer", c.sql(), o.impl_out));
+                }
+            }
             continue;
         }
         report.bump(if o.impl_out == "NONE" { "C.not_converted" } else { "C.converted" });
@@ -535,7 +665,7 @@ pub fn run_c(rt: &tokio::runtime::Runtime, rng: &mut Rng, n: usize, model: &mut 
         }
         report.case(if o.impl_out != "NONE" { Some(&text) } else { None });
         if report.samples.len() < 6 && o.impl_out != "NONE" {
-            report.samples.push(json!({"leg": "C", "sql": to_sql(&c.e), "impl": o.impl_out, "model": o.model_out}));
+            report.samples.push(json!({"leg": "C", "sql": c.sql(), "impl": o.impl_out, "model": o.model_out}));
         }
         if o.differs {
             report.disagreement(json!({
@@ -551,8 +681,8 @@ pub fn run_c(rt: &tokio::runtime::Runtime, rng: &mut Rng, n: usize, model: &mut 
             report.oracle_violation(
                 if all_known { crate::KNOWN_CLASS } else { "" },
                 &format!(
-                    "the predicates extracted from `WHERE {}` ({}) prune a chunk although DataFusion returns its row {:?}, which lies within the statistics",
-                    to_sql(&c.e),
+                    "the predicates extracted from `{}` ({}) prune a chunk although DataFusion's answer on that chunk's rows is not empty (e.g. row {:?}; all rows lie within the statistics)",
+                    c.sql(),
                     o.impl_out,
                     c.rows[i].iter().map(|(k, v)| format!("{}={}", cname(*k), show_v(v))).collect::<Vec<_>>()
                 ),
